@@ -98,6 +98,34 @@ def errStr : Err → String
   | .refWidth => "refWidth" | .refBounds => "refBounds" | .refDims => "refDims"
   | .negToken => "negToken"
 
+def nameOfStr (s : String) : FName := s.toList.map Char.toNat
+def strOfName (n : FName) : String := String.ofList (n.map Char.ofNat)
+def parseName (j : Json) : Except String FName := nameOfStr <$> jsonToStr j
+def nameJ (n : FName) : Json := strJ (strOfName n)
+
+/-- {prefix, suffix, subset: [ids], feat: [file names], ali: null | [file names], ref: null | [...]}
+→ {utt_ids, has_ali, has_ref, files}: `discover` and the file name of every discovered utterance. -/
+def discoverJ (c : Json) : Except String Json := do
+  let pre ← nameOfStr <$> getStr c "prefix"
+  let suf ← nameOfStr <$> getStr c "suffix"
+  let subset ← getList parseName c "subset"
+  let feat ← getList parseName c "feat"
+  let ali ← match fieldOpt c "ali" with
+    | none => pure none
+    | some v => some <$> jsonToList parseName v
+  let ref ← match fieldOpt c "ref" with
+    | none => pure none
+    | some v => some <$> jsonToList parseName v
+  let ids := discover pre suf subset ⟨feat, ali, ref⟩
+  pure (objJ [("utt_ids", listJ nameJ ids), ("has_ali", boolJ (dirInUse pre suf ali)),
+              ("has_ref", boolJ (dirInUse pre suf ref)),
+              ("files", listJ (fun i => nameJ (fileOf pre suf i)) ids)])
+
+def discoverOpt (c : Json) : Except String Json :=
+  match fieldOpt c "discover" with
+  | none => pure Json.null
+  | some v => discoverJ v
+
 /-- case: {utts: [...], calls: [null | k, ...], impl_disks?: [dir after call i as the implementation
 left it]}: the calls are made one after the other on the same directory.
 Reply: {"steps": [{ok, err, disk, wf_before, documented_before, tokens_nonneg_before}],
@@ -140,7 +168,7 @@ def c12History : Handler := fun c => do
       ("expected_wf", boolJ (decide (WellFormed exp))),
       ("after_wf", boolJ (decide (WellFormed after)))])
     before := after
-  pure (objJ [("steps", Json.arr steps), ("oracle", Json.arr oracle)])
+  pure (objJ [("steps", Json.arr steps), ("oracle", Json.arr oracle), ("discover", ← discoverOpt c)])
 
 def parseSeq (j : Json) : Except String Seq := do
   match fieldOpt j "s1" with
@@ -172,6 +200,26 @@ def c12WriteHyp : Handler := fun c => do
 
 def infoJ (i : List (String × Int)) : Json := objJ (i.map fun (k, v) => (k, intJ v))
 
+/-- The lines of the output file, in order. -/
+def linesJ (i : List (String × Int)) : Json :=
+  listJ (fun (kv : String × Int) => Json.arr #[strJ kv.1, intJ kv.2]) (sortLines i)
+
+/-- case: {discover: {...}, lang: bool, refs: [stored reference of every discovered utterance, in
+`utt_ids` order, as a seq], sos, eos, tokens_only}.
+Reply: {discover, loaded: [what `__getitem__` hands out], written: [what `write_hyp` of it stores]}.
+For `lang` the listing's `feat` is the listing of the one directory. -/
+def c12Dataset : Handler := fun c => do
+  let sos ← getOptInt c "sos"
+  let eos ← getOptInt c "eos"
+  let to ← getBool c "tokens_only"
+  let refs ← match fieldOpt c "refs" with
+    | none => pure []
+    | some v => jsonToList (jsonToOption parseSeq) v
+  let loaded := refs.map (Option.map (loadRef to sos eos))
+  let written := loaded.map (Option.map (writeHyp sos eos))
+  pure (objJ [("discover", ← discoverOpt c), ("loaded", listJ (optJ seqJ) loaded),
+              ("written", listJ (optJ seqJ) written)])
+
 /-- case: {utts, mode: "info" | "strict" | "fix", fix: k (for mode fix), impl_disk?}: the command
 `get-torch-spect-data-dir-info [--strict | --fix k]`.
 Reply: {ok, err, disk, report (model, one pass), recount (spec, of `disk`), expected, expected_wf,
@@ -192,13 +240,16 @@ def c12Info : Handler := fun c => do
   let exp := repair fix utts
   let common := [("disk", dirJ after), ("expected", dirJ exp),
     ("expected_wf", boolJ (decide (WellFormed exp))),
-    ("impl_recount", optJ (fun d => infoJ (recount d)) implDisk)]
+    ("impl_recount", optJ (fun d => infoJ (recount d)) implDisk),
+    ("impl_recount_lines", optJ (fun d => linesJ (recount d)) implDisk),
+    ("discover", ← discoverOpt c)]
   match res with
   | .error e =>
     pure (objJ ([("ok", boolJ false), ("err", strJ (infoErrStr e))] ++ common))
   | .ok acc =>
     pure (objJ ([("ok", boolJ true), ("err", Json.null),
                 ("report", infoJ (report utts.length acc)),
+                ("lines", linesJ (report utts.length acc)),
                 ("recount", infoJ (recount after))] ++ common))
 where
   infoErrStr : InfoErr → String
@@ -207,5 +258,5 @@ where
     | .unpack => "unpack"
 
 def main : IO Unit := Proto.run [("c12.history", c12History), ("c12.sos_eos", c12SosEos),
-  ("c12.write_hyp", c12WriteHyp),
+  ("c12.write_hyp", c12WriteHyp), ("c12.dataset", c12Dataset),
   ("c12.info", c12Info)]
